@@ -2,6 +2,9 @@
 
 Back-ends (real code, each in a watched worker process so that a dead-lock is *observed* as `timeout`):
     ref                  the harness's own dependency-ordered interpreter on the real instruction objects
+    ref-shipped          the same on instruction objects and argument values rebuilt from their cloudpickle, task by task
+                         (the pickling contract of instructions observed without dask; not a back-end of the property:
+                         a difference sends the case to the real `processes` scheduler and is a model divergence)
     dask-synchronous     forml.provider.runner.dask.Runner.run under scheduler=synchronous
     dask-threads         ... scheduler=threads
     dask-processes       ... scheduler=processes (re-used spawn pool handed over through dask's `pool` option)
@@ -10,7 +13,15 @@ Back-ends (real code, each in a watched worker process so that a dead-lock is *o
     pyfunc-recover       the same object called with x while one actor raises, then with y
     pyfunc-run           forml.provider.runner.pyfunc.Runner.run(symbols)            (= Expression(symbols)(None))
 
-Models (lean/ForML/Model/{Dask,PyFunc,Symbols}.lean through drv_c02): `run`, `mkjob`+`evalDask`, `expression`+`eval`.
+For a case with a 'segment' (a real flow graph) the dask runners and `pyfunc.Runner` are driven through
+`Runner._exec(segment, assets)` (forml/runtime/_agent.py: compile, then `run`).
+
+Actors: parameterless symbolic actors, and classes with hyper-parameters (`HyA`, `HyB`, `HyC` of c02_rt) whose full
+parameter assignment is stamped on every output and state; actors whose outputs / states are falsy payloads; stored
+states b'', 0 and falsy provenance terms.
+
+Models (lean/ForML/Model/{Dask,PyFunc,Symbols,Builder}.lean through drv_c02): `run`, `mkjob`+`evalDask`,
+`expression`+`eval`, `Spec.new/call/roundtrip`, `runDaskProcesses`.
 
 Oracle (independent of all of them): `Oracle` below — direct dependency-ordered evaluation of the table *spec*
 written from the property statement; a back-end that accepts a valid table must deliver exactly the oracle's sink
@@ -53,12 +64,60 @@ class Invalid(Exception):
     """The spec is not a valid table (the property says nothing about it)."""
 
 
-class Oracle:
-    """Direct evaluation of the spec. `head`/`x`: the instruction `head` receives `x` as an extra last argument."""
+class Uninstantiable(Invalid):
+    """A builder of the table cannot make its actor (missing required argument): no evaluation of the table exists."""
 
-    def __init__(self, spec, head=None, x=NOARG):
+
+def bind_call(sig, args, kw):
+    """The parameter assignment of `cls(*args, **kw)` for the signature `sig` = [(name, default | NODEFAULT, kw-only)]:
+    positional arguments to the leading positional parameters, keywords by name, defaults for the rest. Written from
+    the Python call semantics; TypeError where the call raises."""
+    nodefault = rt().NODEFAULT
+    positional = [n for n, _, kwonly in sig if not kwonly]
+    if len(args) > len(positional):
+        raise TypeError('too many positional arguments')
+    bound = dict(zip(positional, args))
+    for k, v in kw.items():
+        if k in bound:
+            raise TypeError(f'multiple values for {k}')
+        if k not in [n for n, _, _ in sig]:
+            raise TypeError(f'unexpected keyword {k}')
+        bound[k] = v
+    out = []
+    for n, d, _ in sig:
+        if n in bound:
+            out.append((n, bound[n]))
+        elif not (isinstance(d, str) and d == nodefault):
+            out.append((n, d))
+        else:
+            raise TypeError(f'missing {n}')
+    return tuple(out)
+
+
+def ident_of(spec, tag):
+    """What the results of the actors of `tag` say about their maker: the tag, or - built with hyper-parameters - the
+    tag together with the full parameter assignment."""
+    b = (spec.get('builders') or {}).get(str(tag))
+    if b is None:
+        return tag
+    try:
+        return ('actor', tag, bind_call(rt().signature_of(b['cls']), b.get('args', ()), b.get('kw', {})))
+    except TypeError as e:
+        raise Uninstantiable(f'builder of actor {tag}: {e}') from e
+
+
+class Oracle:
+    """Direct evaluation of the spec. `head`/`x`: the instruction `head` receives `x` as an extra last argument.
+    `setfalsy`: which preset values the direct evaluation hands to the actor - every one that is truthy (False) or
+    every one that is not None (True). The property does not say; the harness reads it off the direct evaluation of the
+    real instruction objects and demands the same of every back-end."""
+
+    def __init__(self, spec, head=None, x=NOARG, setfalsy=False):
         self.T = rt().Term
         self.spec = spec
+        self.setfalsy = setfalsy
+        self.falsy_presets = 0
+        self.idents: dict = {}
         self.by = {}
         for key, ins, args in spec['syms']:
             if key in self.by:
@@ -70,8 +129,11 @@ class Oracle:
         self.onstack: set = set()
         self.commits: list = []
         self.dumps: list = []
+        self.uninstantiable = None
         for key in self.by:
             self.val(key)
+        if self.uninstantiable is not None:  # the table is valid otherwise
+            raise self.uninstantiable
 
     def stored(self, g):
         a = self.assets
@@ -81,7 +143,20 @@ class Oracle:
             raise Invalid('loader of a group that is not persistent')
         i = a['persistent'].index(g)
         prev = a.get('prev')
-        return self.T('stored', i) if prev is not None and i < len(prev) and prev[i] else None
+        if prev is None or i >= len(prev):
+            return None
+        if isinstance(prev[i], (list, tuple)):
+            return rt().stored_payload(prev[i][1])
+        return self.T('stored', i) if prev[i] else None
+
+    def ident(self, tag):
+        if tag not in self.idents:
+            try:
+                self.idents[tag] = ident_of(self.spec, tag)
+            except Uninstantiable as e:
+                self.uninstantiable = self.uninstantiable or e
+                self.idents[tag] = tag
+        return self.idents[tag]
 
     def val(self, key):
         if key in self.memo:
@@ -104,14 +179,16 @@ class Oracle:
                 if not vs:
                     raise Invalid('preset without argument')
                 v = vs.pop(0)
-                if v is not None:
+                if v is not None and not v:
+                    self.falsy_presets += 1
+                if v is not None and (v or self.setfalsy):
                     st = v
             if action == 'apply':
-                res = T('apply', tag, st, tuple(vs))
+                res = T('apply', self.ident(tag), st, tuple(vs))
             else:
                 if len(vs) != 2:
                     raise Invalid('train arity')
-                res = T('state', tag, st, vs[0], vs[1])
+                res = T('state', self.ident(tag), st, vs[0], vs[1])
         elif kind == 'getter':
             if len(vs) != 1:
                 raise Invalid('getter arity')
@@ -261,6 +338,53 @@ CORPUS = [
                              assets={'persistent': [2, 4], 'prev': None})),
     # train mode without assets: several sinks
     ('train-no-assets', table((0, F(0), []), (2, F(2, 'train', 0), [0, 0]), (3, F(3), [0]))),
+    # builders with hyper-parameters: an explicit None over a non-None default, falsy values, positional arguments,
+    # keyword-only parameters; the trained group is dumped and committed, the applied fork takes the fresh state
+    ('hyper-train', table((0, F(0), []), (1, F(1), [0]), (10, ['getter', 0], [1]), (11, ['getter', 1], [1]),
+                          (2, F(2, 'train', 0), [10, 11]), (3, F(2, 'apply', 1), [2, 10]), (4, F(4), [3]),
+                          (30, ['dumper'], [2]), (31, ['committer'], [30]),
+                          assets={'persistent': [2], 'prev': None},
+                          builders={'2': {'cls': 'HyA', 'args': [], 'kw': {'alpha': None}},
+                                    '4': {'cls': 'HyB', 'args': [None, None], 'kw': {'flag': False}},
+                                    '0': {'cls': 'HyC', 'args': [0], 'kw': {'mode': None}}})),
+    ('hyper-serving', table((0, F(0, 'apply', 1), [20]), (20, ['loader', 7], []), (21, ['loader', 8], []),
+                            (1, F(1, 'apply', 1), [21, 0]), (2, F(1, 'apply', 1), [21, 1]), (3, F(3), [2, 0]),
+                            assets={'persistent': [8, 9, 7], 'prev': [1, 1, 1]},
+                            builders={'0': {'cls': 'HyB', 'args': [], 'kw': {'lower': None, 'upper': 0}},
+                                      '1': {'cls': 'HyA', 'args': [None, False, ''], 'kw': {'delta': None}},
+                                      '3': {'cls': 'HyA', 'args': [], 'kw': {}}})),
+    ('hyper-explicit-defaults', table((0, F(0), []), (1, F(1), [0]), (2, F(2), [0, 1]),
+                                      builders={'0': {'cls': 'HyA', 'args': [100, None], 'kw': {'gamma': 'g', 'delta': 0}},
+                                                '1': {'cls': 'HyA', 'args': [], 'kw': {}},
+                                                '2': {'cls': 'HyB', 'args': [], 'kw': {'upper': None, 'lower': 0, 'flag': True}}})),
+    # two builders of one class differing in one value only (None vs the default): never one task
+    ('hyper-near-equal', table((0, F(0), []), (1, F(1), [0]), (2, F(2), [0]), (3, F(3), [1, 2]),
+                               builders={'1': {'cls': 'HyB', 'args': [], 'kw': {'lower': None}},
+                                         '2': {'cls': 'HyB', 'args': [], 'kw': {}}})),
+    # falsy yet informative payloads in every role: stored state (b'', 0, falsy term), trained state, data on ports
+    ('falsy-stored-bytes', table((0, F(0), []), (20, ['loader', 7], []), (1, F(1, 'apply', 1), [20, 0]), (2, F(2), [1]),
+                                 assets={'persistent': [7], 'prev': [['f', 1000]]})),
+    ('falsy-stored-zero', table((0, F(0, 'apply', 1), [20]), (20, ['loader', 7], []), (1, F(1), [0]),
+                                assets={'persistent': [7], 'prev': [['f', 1001]]})),
+    ('falsy-stored-term', table((0, F(0), []), (20, ['loader', 7], []), (21, ['loader', 8], []),
+                                (1, F(1, 'apply', 1), [20, 0]), (2, F(2, 'apply', 1), [21, 1, 0]),
+                                assets={'persistent': [8, 7], 'prev': [1, ['f', 1002]]})),
+    ('falsy-trained-state', table((0, F(0), []), (1, F(1), [0]), (10, ['getter', 0], [1]), (11, ['getter', 1], [1]),
+                                  (2, F(2002, 'train', 0), [10, 11]), (3, F(2002, 'apply', 1), [2, 10]), (4, F(4), [3]),
+                                  (30, ['dumper'], [2]), (31, ['committer'], [30]),
+                                  assets={'persistent': [2], 'prev': None})),
+    ('falsy-retrain', table((0, F(0), []), (1, F(1), [0]), (10, ['getter', 0], [1]), (11, ['getter', 1], [1]),
+                            (20, ['loader', 2], []), (21, ['loader', 4], []),
+                            (2, F(2, 'train', 1), [20, 10, 11]), (3, F(2, 'apply', 1), [2, 10]),
+                            (4, F(3004, 'train', 1), [21, 3, 11]), (5, F(3004, 'apply', 1), [4, 3]),
+                            (30, ['dumper'], [2]), (32, ['dumper'], [4]), (31, ['committer'], [32, 30]),
+                            assets={'persistent': [4, 2], 'prev': [['f', 1000], ['f', 1003]]})),
+    ('falsy-data', table((0, F(1000), []), (1, F(1001), [0]), (10, ['getter', 0], [1]), (12, ['getter', 2], [1]),
+                         (2, F(2), [12, 0]), (3, F(1003), [10, 2, 0]))),
+    ('falsy-and-hyper', table((0, F(0), []), (20, ['loader', 7], []), (1, F(1001, 'apply', 1), [20, 0]), (2, F(2), [1, 0]),
+                              assets={'persistent': [7], 'prev': [['f', 1000]]},
+                              builders={'1001': {'cls': 'HyB', 'args': [], 'kw': {'upper': None, 'flag': None}},
+                                        '2': {'cls': 'HyA', 'args': [0], 'kw': {'beta': False}}})),
 ]
 
 MALFORMED = [
@@ -280,6 +404,8 @@ MALFORMED = [
     ('short-commit', table((0, F(0), []), (2, F(2, 'train', 0), [0, 0]), (30, ['dumper'], [2]), (31, ['committer'], [30]),
                            assets={'persistent': [2, 4], 'prev': None})),
     ('train-arity', table((0, F(0), []), (2, F(2, 'train', 0), [0]))),
+    # a builder that `Spec.__new__` accepts but that cannot make its actor (required argument missing)
+    ('uninstantiable-builder', table((0, F(0), []), (1, F(1), [0]), builders={'1': {'cls': 'HyC', 'args': [], 'kw': {'offset': None}}})),
 ]
 
 
@@ -443,6 +569,220 @@ def gen_train(rng, stages=None):
     return {'syms': syms, 'assets': assets}
 
 
+HYPER_VALUES = [None, False, True, 0, 1, 5, 100, '', 'g', 'x']
+
+
+def gen_builder(rng, cls=None, malformed=False):
+    """A builder description for one of the parametric actor classes: every parameter is left to its default, given
+    its default explicitly, given None, given a falsy value or given another value - positionally (a prefix of the
+    positional parameters) or by keyword. `malformed`: may also carry what `Spec.__new__` refuses (too many positional
+    arguments, an unknown keyword, a parameter given twice)."""
+    R = rt()
+    cls = cls or rng.choice(['HyA', 'HyA', 'HyB', 'HyB', 'HyC'])
+    sig = R.signature_of(cls)
+
+    def value(default):
+        nod = isinstance(default, str) and default == R.NODEFAULT
+        r = rng.random()
+        if r < 0.3:
+            return None
+        if r < 0.5 and not nod:
+            return default
+        if r < 0.75:
+            return rng.choice([False, 0, ''])
+        return rng.choice(HYPER_VALUES)
+
+    positional = [p for p in sig if not p[2]]
+    npos = rng.choice([0, 0, 0, 1, 2, len(positional)]) if positional else 0
+    npos = min(npos, len(positional))
+    args = [value(d) for _, d, _ in positional[:npos]]
+    kw = {}
+    for n, d, _ in sig[npos:]:
+        required = isinstance(d, str) and d == R.NODEFAULT
+        if rng.random() < (0.9 if required else 0.5):
+            kw[n] = value(d)
+    if malformed:
+        r = rng.random()
+        if r < 0.3:
+            args = args + [value(None) for _ in range(len(positional) - len(args) + 1)]
+        elif r < 0.6:
+            kw['omega'] = value(None)
+        elif npos and r < 0.9:
+            kw[positional[0][0]] = value(None)
+    keys = list(kw)
+    rng.shuffle(keys)
+    return {'cls': cls, 'args': args, 'kw': {k: kw[k] for k in keys}}
+
+
+def tags_of(spec):
+    return sorted({ins[1] for _, ins, _ in spec['syms'] if ins[0] == 'functor'})
+
+
+def retag(spec, mapping):
+    """The spec with the actor tags renamed."""
+    out = dict(spec)
+    out['syms'] = [[k, ([ins[0], mapping.get(ins[1], ins[1])] + list(ins[2:])) if ins[0] == 'functor' else list(ins), list(args)]
+                   for k, ins, args in spec['syms']]
+    if spec.get('stateful'):
+        out['stateful'] = {str(mapping.get(int(t), int(t))): v for t, v in spec['stateful'].items()}
+    if spec.get('builders'):
+        out['builders'] = {str(mapping.get(int(t), int(t))): v for t, v in spec['builders'].items()}
+    if spec.get('fail') is not None:
+        out['fail'] = mapping.get(spec['fail'], spec['fail'])
+    return out
+
+
+def decorate(rng, spec, hyper=0.5, falsy=0.5):
+    """Payload / configuration widening of any table spec (the shape is untouched):
+      * builders with hyper-parameters for some of the actor tags (`gen_builder`);
+      * actors whose outputs and / or trained states are falsy payloads (tag bits, see c02_rt.falsy_term);
+      * falsy stored states in the previous generation (b'', 0, falsy provenance terms)."""
+    R = rt()
+    tags = tags_of(spec)
+    if not tags or max(tags) >= R.FALSY_BASE:
+        return spec
+    out = spec
+    if rng.random() < falsy:
+        trained = {ins[1] for _, ins, _ in spec['syms'] if ins[0] == 'functor' and ins[2] == 'train'}
+        mapping = {}
+        for t in tags:
+            bits = 0
+            if rng.random() < 0.35:
+                bits += R.FALSY_BASE
+            if t in trained and rng.random() < 0.5:
+                bits += 2 * R.FALSY_BASE
+            if bits:
+                mapping[t] = t + bits
+        out = retag(out, mapping)
+        a = out.get('assets')
+        if a is not None and a.get('prev'):
+            prev = [['f', rng.choice([R.FALSY_BASE, R.FALSY_BASE, R.FALSY_BASE + 1, R.FALSY_BASE + 2 + i])]
+                    if rng.random() < 0.5 else b for i, b in enumerate(a['prev'])]
+            out = dict(out, assets={'persistent': list(a['persistent']), 'prev': prev})
+    if rng.random() < hyper:
+        builders = dict(out.get('builders') or {})
+        for t in tags_of(out):
+            if rng.random() < 0.6:
+                b = gen_builder(rng)
+                if b['cls'] == 'HyC' and 'scale' not in b['kw'] and not b['args'] and rng.random() < 0.8:
+                    b['kw']['scale'] = rng.choice(HYPER_VALUES)
+                builders[str(t)] = b
+        out = dict(out, builders=builders)
+    return out
+
+
+def gen_segment(rng, mode=None):
+    """A real flow segment (description, see c02_rt.build_segment) in the shape of a pipeline: source -> stages -> sink.
+    Train mode: the source yields features and labels; a stage is a stateless mapper, a trained group (trainer fed by
+    the current features and the labels, one or two applied forks taking the fresh state), or a fan-out into two
+    branches of different depth joined by a 2-input worker (optionally through a 2-output worker and its getters).
+    Apply mode: the same with every group being one stateful worker whose state the compiler loads."""
+    mode = mode or rng.choice(['train', 'apply'])
+    nodes, subs, train, stateful = [], [], [], []
+    nid = [0]
+
+    def node(tag, szin, szout, fork=None):
+        nodes.append([nid[0], tag, szin, szout, fork])
+        nid[0] += 1
+        return nid[0] - 1
+
+    src = node(0, 0, 2 if mode == 'train' else 1)
+    cur, label = (src, 0), (src, 1)
+    groups = []
+    tag = 1
+    for _ in range(rng.choice([1, 2, 2, 3, 4])):
+        kind = rng.choice(['map', 'group', 'group', 'fan', 'split'])
+        if kind == 'map':
+            n = node(tag, 1, 1)
+            subs.append([n, 0, cur[0], cur[1]])
+            cur = (n, 0)
+        elif kind == 'group':
+            stateful.append(tag)
+            if mode == 'train':
+                t = node(tag, 1, 1)
+                train.append([t, list(cur), list(label)])
+                groups.append(t)
+                forks = [node(tag, 1, 1, fork=t) for _ in range(rng.choice([1, 1, 2]))]
+                for f in forks:
+                    subs.append([f, 0, cur[0], cur[1]])
+                if len(forks) == 2:
+                    tag += 1
+                    j = node(tag, 2, 1)
+                    order = forks if rng.random() < 0.5 else forks[::-1]
+                    subs.extend([[j, 0, order[0], 0], [j, 1, order[1], 0]])
+                    cur = (j, 0)
+                else:
+                    cur = (forks[0], 0)
+            else:
+                n = node(tag, 1, 1)
+                groups.append(n)
+                subs.append([n, 0, cur[0], cur[1]])
+                cur = (n, 0)
+        elif kind == 'fan':
+            a = node(tag, 1, 1)
+            subs.append([a, 0, cur[0], cur[1]])
+            b = node(tag + 1, 1, 1)
+            subs.append([b, 0, a, 0])
+            j = node(tag + 2, 2, 1)
+            first, second = ((cur, (b, 0)) if rng.random() < 0.5 else ((b, 0), cur))
+            subs.extend([[j, 0, first[0], first[1]], [j, 1, second[0], second[1]]])
+            tag += 2
+            cur = (j, 0)
+        else:
+            sp = node(tag, 1, 2)
+            subs.append([sp, 0, cur[0], cur[1]])
+            j = node(tag + 1, 2, 1)
+            ports = [0, 1] if rng.random() < 0.5 else [1, 0]
+            subs.extend([[j, 0, sp, ports[0]], [j, 1, sp, ports[1]]])
+            tag += 1
+            cur = (j, 0)
+        tag += 1
+    sink = node(999, 1, 1)
+    subs.append([sink, 0, cur[0], cur[1]])
+    assets = None
+    if groups and (mode == 'apply' or rng.random() < 0.85):
+        pers = [g for g in groups if rng.random() < 0.8]
+        rng.shuffle(pers)
+        prev = None
+        if mode == 'apply' or rng.random() < 0.5:
+            prev = [rng.choice([1, 1, 1, 0]) for _ in pers][:rng.choice([len(pers), len(pers), max(0, len(pers) - 1)])]
+        assets = {'persistent': pers, 'prev': prev}
+    return {'nodes': nodes, 'subs': subs, 'train': train, 'head': src, 'tail': sink, 'stateful': stateful, 'assets': assets}
+
+
+def segment_case(rng, seg):
+    """The case of a real segment: decorated (builders with hyper-parameters, falsy payloads), compiled and described
+    in the parent; the workers rebuild the segment and hand it to `Runner._exec`."""
+    R = rt()
+    tags = sorted({n[1] for n in seg['nodes']})
+    builders = {}
+    if rng.random() < 0.7:
+        for t in tags:
+            if rng.random() < 0.5:
+                b = gen_builder(rng)
+                if b['cls'] == 'HyC' and 'scale' not in b['kw'] and not b['args']:
+                    b['kw']['scale'] = rng.choice(HYPER_VALUES)
+                builders[str(t)] = b
+    if rng.random() < 0.5:  # falsy outputs / states / stored payloads
+        mapping = {}
+        for t in tags:
+            bits = (R.FALSY_BASE if rng.random() < 0.3 else 0) + (2 * R.FALSY_BASE if t in seg['stateful'] and rng.random() < 0.5 else 0)
+            if bits:
+                mapping[t] = t + bits
+        seg = dict(seg, nodes=[[n[0], mapping.get(n[1], n[1])] + n[2:] for n in seg['nodes']],
+                   stateful=[mapping.get(t, t) for t in seg['stateful']])
+        builders = {str(mapping.get(int(t), int(t))): b for t, b in builders.items()}
+        a = seg.get('assets')
+        if a and a.get('prev'):
+            seg['assets'] = {'persistent': a['persistent'], 'prev': [['f', rng.choice([R.FALSY_BASE, R.FALSY_BASE + 1, R.FALSY_BASE + 2 + i])]
+                                                                      if rng.random() < 0.5 else b for i, b in enumerate(a['prev'])]}
+    d = R.describe_segment(seg, builders)
+    if d is None:
+        return None
+    return {'syms': d['syms'], 'assets': d['assets'], 'segment': seg, 'builders': builders,
+            'stateful': {str(t): True for t in seg['stateful']}}
+
+
 def enum_apply(n, max_args=2):
     """Every apply-mode DAG of `n` stateless single-output workers, each non-head worker taking 1..max_args ordered
     arguments among the earlier workers, exactly one sink (the last worker)."""
@@ -516,22 +856,80 @@ def from_segment(c01spec):
 # --------------------------------------------------------------------------------------------------
 
 
-def instr_sexp(ins):
+STRS = ['', 'g', 'x', 'y']  # the strings among the hyper-parameter values (`Hyper.str n`)
+_PNAMES: list = []
+
+
+def pnames():
+    """Names of all hyper-parameters of the symbolic actor classes (`Param.name` = position in this list)."""
+    if not _PNAMES:
+        for c in sorted(rt().HYPER):
+            for n, _, _ in rt().signature_of(c):
+                if n not in _PNAMES:
+                    _PNAMES.append(n)
+    return _PNAMES
+
+
+def hyper_sexp(v):
+    if v is None:
+        return None
+    if isinstance(v, bool):
+        return 'true' if v else 'false'
+    if isinstance(v, int):
+        return ['int', v]
+    if isinstance(v, str):
+        return ['str', STRS.index(v)]
+    raise ValueError(f'not a hyper-parameter value: {v!r}')
+
+
+def hyper_py(c):
+    if c in (None, 'none'):
+        return None
+    if c in ('true', 'false'):
+        return c == 'true'
+    if c[0] == 'int':
+        return int(c[1])
+    if c[0] == 'str':
+        return STRS[int(c[1])]
+    raise ValueError(f'not a hyper-parameter value: {c!r}')
+
+
+def class_sexp(tag, cls):
+    nodefault = rt().NODEFAULT
+    return [tag, [[pnames().index(n), 'none' if isinstance(d, str) and d == nodefault else ['some', hyper_sexp(d)],
+                   'true' if kwonly else 'false'] for n, d, kwonly in rt().signature_of(cls)]]
+
+
+def builder_sexp(tag, b):
+    """spec ::= (class (hyper*) ((name hyper)*)); a tag without builder entry is the bare number"""
+    if b is None:
+        return tag
+    return [class_sexp(tag, b['cls']), [hyper_sexp(v) for v in b.get('args', ())],
+            [[pnames().index(k), hyper_sexp(v)] for k, v in b.get('kw', {}).items()]]
+
+
+def instr_sexp(ins, builders=None):
     if ins[0] == 'functor':
-        return ['functor', ins[1], ins[2], ['setstate'] * ins[3]]
+        return ['functor', builder_sexp(ins[1], (builders or {}).get(str(ins[1]))), ins[2], ['setstate'] * ins[3]]
     if ins[0] in ('getter', 'loader'):
         return [ins[0], ins[1]]
     return ins[0]
 
 
+def prev_sexp(i, b):
+    if isinstance(b, (list, tuple)):
+        return ['stored', b[1]]
+    return ['stored', i] if b else None
+
+
 def case_sexp(spec, info, x):
-    syms = [[['uid', k], instr_sexp(ins), [['uid', a] for a in args]] for k, ins, args in spec['syms']]
+    syms = [[['uid', k], instr_sexp(ins, spec.get('builders')), [['uid', a] for a in args]] for k, ins, args in spec['syms']]
     a = spec.get('assets')
     if a is None:
         assets = None
     else:
         prev = a.get('prev')
-        assets = [list(a['persistent']), [] if prev is None else [['stored', i] if b else None for i, b in enumerate(prev)]]
+        assets = [list(a['persistent']), [] if prev is None else [prev_sexp(i, b) for i, b in enumerate(prev)]]
     head = None if info.get('head') is None else ['uid', info['head']]
     rank = [[['uid', k], r] for k, r in sorted(info.get('rank', {}).items())]
     return sexp.dumps(['all', assets, syms, x, head, rank])
@@ -689,6 +1087,11 @@ def features(spec, info):
         f.append('shared')
     if info.get('head') is not None and consumers[info['head']] > 1:
         f.append('head-fanout')
+    if spec.get('builders'):
+        f.append('hyper')
+    a = spec.get('assets') or {}
+    if any(t >= rt().FALSY_BASE for t in tags_of(spec)) or any(isinstance(b, list) for b in a.get('prev') or ()):
+        f.append('falsy')
     return f
 
 
@@ -709,9 +1112,22 @@ class C02(fw.Check):
             '(apply-mode single-sink tables). A case is distinct by its spec and non-trivial when it is valid and has '
             '>= 3 instructions. Compared with the oracle: sink outputs (actor results, by structural digest), commits, '
             'executions per instruction class (exactly once; execution nonces: every consumer served by the same execution); '
-            'with the Lean models: outcome class and sink values.')
+            'with the Lean models: outcome class and sink values. Round 4: (e) payload / configuration widening of streams '
+            '(a)-(c) (`decorate`: 35-50 % of the cases) and a stream of small tables of its own, every one also under the '
+            'processes scheduler - actor builders with hyper-parameters (three classes; every parameter left out, given its '
+            'default explicitly, None, a falsy value or another value, positionally or by keyword, keyword-only, one '
+            'required) stamped on every output and state; actors whose outputs / trained states are falsy payloads; stored '
+            "states b'', 0, falsy provenance terms; (f) builder descriptions incl. what Spec.__new__ refuses against the real "
+            'flow.Spec (creation, instantiation, pickle and cloudpickle round trip) and the Lean Spec model; (g) real flow '
+            'segments (pipelines with trained groups, forks, fan-out, multi-output workers) handed to Runner._exec of the '
+            'dask runner under every scheduler and of the pyfunc runner; (h) every table also evaluated directly on '
+            'instructions rebuilt from their cloudpickle (ref-shipped).')
     TRUSTED = [
-        'symbolic actors/payloads (provenance terms, structural digests): runners are assumed payload-agnostic (DESIGN 3)',
+        'symbolic actors/payloads (provenance terms, structural digests): runners are assumed payload-agnostic except for '
+        'the truthiness of a payload, which the payloads carry (falsy outputs / states / stored states; the convention is the '
+        'one of Val.truthy in the shared Symbols.lean and is checked against the driver on every run)',
+        'Python pickling of everything but flow.Spec (Functor named tuple, action objects, system instructions, asset '
+        'accessor, payload terms): the model takes it as the identity; observed on every table by ref-shipped',
         'the fake generation behind the real asset.State and the per-invocation record file (one JSON line per actor '
         'call / dump / commit / load, O_APPEND) through which sink outputs and persisted states are observed, also across '
         'the processes scheduler',
@@ -721,6 +1137,11 @@ class C02(fw.Check):
         'compiler output and re-materialised',
     ]
     ASSUMPTIONS = [
+        'which preset values reach the actor (truthy ones only, or every one that is not None) is read off the direct '
+        'evaluation of the real instruction objects per case and demanded of every back-end; the Lean model has the truthy '
+        'rule of the code that exists (a consistent change of the rule is a model divergence, not a violation)',
+        'builders: positional-or-keyword and keyword-only constructor parameters, values None / bool / int / str; the meaning '
+        'of a table is that every functor is applied by the actor `cls(*args, **kwargs)` makes (Python call semantics)',
         'valid table: unique instructions, every argument bound, acyclic, arities as the compiler emits them (train: '
         'features+labels after the presets, getter/dumper one argument, committer one state per persistent group), '
         'loaders/dumpers/committer only with an asset accessor and only for persistent groups',
@@ -740,10 +1161,11 @@ class C02(fw.Check):
         self.farm = None
         self.outcomes = collections.Counter()
         self.found = collections.Counter()
+        self.suspects: list = []  # builder descriptions on which the real pickling and the model disagree
 
     # ---- one batch ---------------------------------------------------------------------------
     def _backends_for(self, spec, info, procs):
-        bs = ['ref', 'dask-synchronous', 'dask-threads']
+        bs = ['ref', 'ref-shipped', 'dask-synchronous', 'dask-threads']
         if procs == 'pool':
             bs.append('dask-processes')
         elif procs == 'fresh':
@@ -783,6 +1205,20 @@ class C02(fw.Check):
                         solo.close()
                     self.outcomes[(b, f're-run after {o["status"]}: {again["status"]}')] += 1
                     results[i][b] = again
+        # the pickling contract of instructions, observed without dask (`ref-shipped`: the direct evaluation on copies
+        # rebuilt from their cloudpickle): a table on which that changes anything also runs behind the real process
+        # boundary, whatever the plan says
+        again = []
+        for i, (name, spec) in enumerate(items):
+            a, b = results[i].get('ref'), results[i].get('ref-shipped')
+            if a and b and a['status'] == 'ok' and not any(p in results[i] for p in ('dask-processes', 'dask-processes-fresh')):
+                if b['status'] != 'ok' or {r[3] for r in a['records'] if r[0] == 'call'} != {r[3] for r in b['records'] if r[0] == 'call'} \
+                        or sorted(r[1] for r in a['records'] if r[0] == 'commit') != sorted(r[1] for r in b['records'] if r[0] == 'commit'):
+                    again.append((i, spec, ['dask-processes']))
+        if again:
+            self.outcomes[('ref-shipped', 'differs from ref: case sent to the processes scheduler')] += len(again)
+            for i, out in self.farm.run(again[:40]).items():
+                results[i].update(out)
         answers = iter(self.model(lines))
         for i, (name, spec) in enumerate(items):
             info = infos[i]
@@ -793,7 +1229,7 @@ class C02(fw.Check):
     def _expected(self, spec, info, x):
         """(sink functor digests, all functor digests by (tag, action), commits) with the head fed `x`."""
         R = rt()
-        orc = info['oracle'] if x is NOARG else Oracle(spec, info['head'], x)
+        orc = self._oracle(spec, info, x)
         by = orc.by
         sink = {}
         for k in info['sinks']:
@@ -805,6 +1241,25 @@ class C02(fw.Check):
                 allv[(ins[1], ins[2])].add(R.digest(orc.memo[k]))
         commits = sorted([R.digest(s) for s in c] for c in orc.commits)
         return orc, sink, allv, commits
+
+    @staticmethod
+    def _oracle(spec, info, x=NOARG):
+        """The direct evaluation of the spec (head fed `x`) under the preset policy observed for this case."""
+        setfalsy = info.get('setfalsy', False)
+        if x is NOARG and not setfalsy:
+            return info['oracle']
+        cache = info.setdefault('oracles', {})
+        key = (None if x is NOARG else 'none' if x is None else rt().digest(x), setfalsy)
+        if key not in cache:
+            cache[key] = Oracle(spec, None if x is NOARG else info['head'], x, setfalsy=setfalsy)
+        return cache[key]
+
+    @staticmethod
+    def _explains(orc, out):
+        """Does the evaluation `orc` account for exactly the actor results the back-end recorded?"""
+        R = rt()
+        want = {R.digest(orc.memo[k]) for k, (ins, _) in orc.by.items() if ins[0] == 'functor'}
+        return want == {r[3] for r in out['records'] if r[0] == 'call'}
 
     @staticmethod
     def _classes(orc):
@@ -894,7 +1349,7 @@ class C02(fw.Check):
                          f'{sigprefix}:{stage if sigprefix == "pyfunc" else "run"}:{out.get("error")}{shape_sig if sigprefix == "pyfunc" else ""}')
             return
         if backend == 'pyfunc-recover':
-            orc2 = Oracle(spec, info['head'], R.Term(*R.INPUT2))
+            orc2 = self._oracle(spec, info, R.Term(*R.INPUT2))
             want2 = R.digest(orc2.memo[info['sinks'][0]])
             if out.get('result2', [None])[0] != want2:
                 self.violate(f'pyfunc Expression returns {out.get("result2", [None, None])[1]} on the call following one on '
@@ -903,7 +1358,7 @@ class C02(fw.Check):
             return
         orcs = [orc]
         if backend == 'pyfunc-call':
-            orcs.append(Oracle(spec, info['head'], R.Term(*R.INPUT2)))  # the record holds both requests
+            orcs.append(self._oracle(spec, info, R.Term(*R.INPUT2)))  # the record holds both requests
         calls = collections.defaultdict(set)
         briefs = {}
         for r in out['records']:
@@ -940,7 +1395,7 @@ class C02(fw.Check):
                 self.violate(f'pyfunc Expression returns {out.get("result", [None, None])[1]}; dependency-ordered '
                              f'evaluation: {R.show(orc.memo[info["sinks"][0]], 300)}', witness, 'pyfunc:return-value')
                 return
-            orc2 = Oracle(spec, info['head'], R.Term(*R.INPUT2))
+            orc2 = self._oracle(spec, info, R.Term(*R.INPUT2))
             want2 = R.digest(orc2.memo[info['sinks'][0]])
             if out.get('result2', [None])[0] != want2:
                 self.violate(f'pyfunc Expression returns {out.get("result2", [None, None])[1]} on the second call; '
@@ -950,7 +1405,7 @@ class C02(fw.Check):
 
     def _judge(self, name, spec, info, res, m, stream):
         R = rt()
-        witness = {'spec': spec, 'name': name}
+        witness = {'spec': spec, 'name': name, 'backends': [b for b in R.BACKENDS if b in res]}
         feats = features(spec, info) if info['valid'] else ['invalid:' + str(info['why'])]
         nsym = len(spec['syms'])
         shape = f'{stream}: {"+".join(feats)} n={nsym if nsym < 8 else "8+"}' + ('' if info['valid'] else '')
@@ -964,6 +1419,15 @@ class C02(fw.Check):
             if o['status'] == 'harness-error':
                 raise fw.MachineryError(f'worker failed on {name}: {o.get("error")}')
         unbuildable = any(o['status'] == 'unbuildable' for o in res.values())
+        # ---- which preset values does the direct evaluation of the real instructions hand to the actor? ----
+        info['setfalsy'] = False
+        ref = res.get('ref')
+        if info['valid'] and not unbuildable and info['oracle'].falsy_presets and ref and ref['status'] == 'ok' \
+                and not self._explains(info['oracle'], ref):
+            alt = Oracle(spec, setfalsy=True)
+            if self._explains(alt, ref):
+                info['setfalsy'] = True
+                self.outcomes[('ref', 'the direct evaluation hands falsy preset values to the actor')] += 1
         # ---- oracle on the real code (valid tables only) ------------------------------------------
         if info['valid'] and not unbuildable:
             for b, o in res.items():
@@ -980,9 +1444,30 @@ class C02(fw.Check):
         # ---- model vs implementation ------------------------------------------------------------
         if m is None or unbuildable:
             return
+        uninst = str(info.get('why') or '').startswith('builder of actor')
+        if isinstance(m, list) and m and m[0] == 'uninstantiable':
+            # some builder cannot make its actor: on a table that is valid otherwise every instruction is executed by
+            # the direct evaluation and by dask, which raise TypeError when they get there
+            if info['valid']:
+                self.diverge('Spec.call (Lean) vs the call semantics of the harness: instantiable?', witness, 'ok', m)
+            elif uninst:
+                for b, o in res.items():
+                    if (b == 'ref' or b in DASK) and o['status'] != 'timeout' and (o['status'] == 'ok' or o.get('error') != 'TypeError'):
+                        self.diverge(f'{b} outcome on a table with an uninstantiable builder', witness,
+                                     o.get('error', o['status']), 'TypeError')
+            return
         if not (isinstance(m, list) and m and m[0] == 'all'):
             raise fw.MachineryError(f'model driver rejected a case: {m!r:.200}')
-        _, mrun, mdask, mpf, mpf2, mvin, mwf, mam = m
+        if uninst:
+            self.diverge('Spec.call (Lean) vs the call semantics of the harness: instantiable?', witness, info.get('why'), 'ok')
+            return
+        _, mrun, mdask, mpf, mpf2, mvin, mwf, mam, mproc, mactors = m
+        actors = {a[0]: ('actor', a[1], tuple((pnames()[n], hyper_py(v)) for n, v in a[2])) for a in mactors}
+        info['actors'] = actors
+
+        def dc(c):  # digests of model values: actor symbols stand for configured instances
+            return R.digest_canon(c, actors)
+
         if info['valid'] and (mam == 'true') != info['pyfunc']:
             self.diverge('Table.applyMode vs harness classification of the pyfunc domain', witness, info['pyfunc'], mam)
         if (mwf == 'true') != info['valid'] and info['why'] in (None, 'duplicate key', 'unbound argument', 'cyclic'):
@@ -996,7 +1481,7 @@ class C02(fw.Check):
         # reference interpreter `run` vs the harness interpreter on the real instructions
         if 'ref' in res and res['ref']['status'] == 'ok' and info['valid']:
             for k, v in model_vals(mrun).items():
-                if by[k][0] == 'functor' and R.digest_canon(v) not in calls['ref']:
+                if by[k][0] == 'functor' and dc(v) not in calls['ref']:
                     self.diverge('Lean `run` sink value vs real instructions under the harness interpreter', witness,
                                  sorted(calls['ref'])[:3], v)
         # dask
@@ -1015,7 +1500,7 @@ class C02(fw.Check):
                 if not info['valid']:
                     continue
                 for k, v in model_vals(mdask[1]).items():
-                    if by[k][0] == 'functor' and R.digest_canon(v) not in calls[b]:
+                    if by[k][0] == 'functor' and dc(v) not in calls[b]:
                         self.diverge(f'{b} sink value', witness, sorted(calls[b])[:3], v)
                 if mdask[2] != 'true':
                     self.diverge('model: dask job does not run every task exactly once', witness, None, mdask[2])
@@ -1023,6 +1508,28 @@ class C02(fw.Check):
                 want = {'duplicated': 'AssertionError', 'notAcyclic': 'AssertionError', 'recursion': 'RecursionError'}[mdask[1]]
                 if o.get('error') != want:
                     self.diverge(f'{b} outcome', witness, o.get('error', o['status']), mdask)
+        # the `processes` scheduler: every instruction executed on a copy rebuilt from its pickle
+        for b in ('dask-processes', 'dask-processes-fresh'):
+            o = res.get(b)
+            if o is None or o['status'] == 'timeout' or not info['valid']:
+                continue
+            if mproc[0] == 'ok':
+                if o['status'] != 'ok':
+                    self.diverge(f'{b} outcome (runDaskProcesses)', witness, o.get('error'), 'ok')
+                    continue
+                for k, v in model_vals(mproc[1]).items():
+                    if by[k][0] == 'functor' and dc(v) not in calls[b]:
+                        self.diverge(f'{b} sink value (runDaskProcesses)', witness, sorted(calls[b])[:3], v)
+            elif o['status'] == 'ok':
+                self.diverge(f'{b} outcome (runDaskProcesses)', witness, 'ok', mproc)
+        # the direct evaluation on instructions rebuilt from their pickle: the model says nothing changes (PTable.ship)
+        o, a = res.get('ref-shipped'), res.get('ref')
+        if o is not None and a is not None and info['valid'] and a['status'] == 'ok' and o['status'] != 'timeout':
+            if o['status'] != 'ok':
+                self.diverge('direct evaluation on instructions rebuilt from their pickle: outcome', witness, o.get('error'), 'ok')
+            elif calls['ref-shipped'] != calls['ref']:
+                self.diverge('direct evaluation on instructions rebuilt from their pickle (Lean `PTable.ship`: unchanged)', witness,
+                             sorted(calls['ref-shipped'] - calls['ref'])[:3], sorted(calls['ref'] - calls['ref-shipped'])[:3])
         # pyfunc
         o = res.get('pyfunc-call')
         if o is not None:
@@ -1035,14 +1542,14 @@ class C02(fw.Check):
                     if info['valid'] or o.get('stage') == 'build':
                         self.diverge('pyfunc outcome', witness, [o.get('stage'), o.get('error')], 'ok')
                 elif o['status'] == 'ok' or o.get('stage') == 'call2':
-                    if info['valid'] and o.get('result', [None])[0] != R.digest_canon(mpf[1]):
+                    if info['valid'] and o.get('result', [None])[0] != dc(mpf[1]):
                         self.diverge('pyfunc return value', witness, o['result'][1], mpf[1])
                     if not info['pyfunc']:
                         pass  # outside the runner's domain (e.g. a train functor keeps its state between calls)
                     elif mpf2[0] == 'ok':
                         if o['status'] != 'ok':
                             self.diverge('pyfunc second call outcome', witness, o.get('error'), 'ok')
-                        elif info['valid'] and o['result2'][0] != R.digest_canon(mpf2[2]):
+                        elif info['valid'] and o['result2'][0] != dc(mpf2[2]):
                             self.diverge('pyfunc second call value', witness, o['result2'][1], mpf2[2])
                     elif o['status'] == 'ok' or ERRMAP.get(o.get('error')) != mpf2[1]:
                         self.diverge('pyfunc second call outcome', witness, o.get('error', 'ok'), mpf2)
@@ -1053,11 +1560,11 @@ class C02(fw.Check):
         if info['valid'] and info['pyfunc'] and mvin != 'none':
             orc = Oracle(spec, info['head'], R.Term(*R.INPUT))
             for k, v in model_vals(mvin).items():
-                if R.digest(orc.memo[k]) != R.digest_canon(v):
+                if R.digest(orc.memo[k]) != dc(v):
                     self.diverge('valueIn (Lean) vs oracle with input (Python)', witness, R.show(orc.memo[k]), v)
         if info['valid']:
             for k, v in model_vals(mrun).items():
-                if R.digest(info['oracle'].memo[k]) != R.digest_canon(v):
+                if R.digest(info['oracle'].memo[k]) != dc(v):
                     self.diverge('run (Lean) vs oracle (Python)', witness, R.show(info['oracle'].memo[k]), v)
 
     # ---- streams ------------------------------------------------------------------------------
@@ -1089,26 +1596,146 @@ class C02(fw.Check):
             keep.append((name, spec))
         return keep
 
+    def _conventions(self):
+        """The payload truthiness the real symbolic payloads have must be the one of the shared Lean model."""
+        R = rt()
+        T = R.Term
+        probes = [None, T('stored', 0), T('stored', R.FALSY_BASE - 1), T('stored', R.FALSY_BASE), T('stored', R.FALSY_BASE + 1),
+                  T('stored', 5 * R.FALSY_BASE), T('input', 0), T('dumped', None), T('committed', ()), T('proj', 0, T('apply', R.FALSY_BASE, None, ()))]
+        for a in (0, 7, R.FALSY_BASE - 1, R.FALSY_BASE, R.FALSY_BASE + 7, 2 * R.FALSY_BASE, 2 * R.FALSY_BASE + 7, 3 * R.FALSY_BASE + 7,
+                  4 * R.FALSY_BASE + 7, 5 * R.FALSY_BASE + 7, 6 * R.FALSY_BASE, 7 * R.FALSY_BASE + 1, 10 ** 6 + 3):
+            probes.append(T('apply', a, None, ()))
+            probes.append(T('state', a, None, None, None))
+        ans = sexp.loads(self.model([sexp.dumps(['truthy'] + [R.canon(v) for v in probes])])[0])
+        got = [a == 'true' for a in ans]
+        want = [bool(v) for v in probes]
+        if got != want:
+            bad = [R.canon(v) for v, g, w in zip(probes, got, want) if g != w]
+            raise fw.MachineryError(f'payload truthiness of the shared model (Val.truthy) and of the harness payloads differ on {bad[:4]}')
+        if not (bool(R.stored_payload(R.FALSY_BASE)) is False and R.stored_payload(R.FALSY_BASE) == b''
+                and R.stored_payload(R.FALSY_BASE + 1) == 0 and not R.stored_payload(R.FALSY_BASE + 1)):
+            raise fw.MachineryError('stored payload literals')
+
+    def _builders(self, n):
+        """Differential test of the builder model (`Spec.new`, `Spec.call`, `Spec.roundtrip`) against the real
+        `flow.Spec`: creation, instantiation, pickle / cloudpickle round trip, instantiation behind the round trip.
+        Builder descriptions whose round trip does not configure the same actor are kept for the failing-input search."""
+        R = rt()
+        rng = self.rng
+        descs = []
+        for cls in sorted(R.HYPER):  # hand-picked: nothing passed, explicit None for every parameter, all defaults explicit
+            sig = R.signature_of(cls)
+            descs.append({'cls': cls, 'args': [], 'kw': {}})
+            descs.append({'cls': cls, 'args': [], 'kw': {n_: None for n_, _, _ in sig}})
+            descs.append({'cls': cls, 'args': [], 'kw': {n_: d for n_, d, _ in sig if not (isinstance(d, str) and d == R.NODEFAULT)}})
+            descs.append({'cls': cls, 'args': [None for p in sig if not p[2]], 'kw': {}})
+            descs.append({'cls': cls, 'args': [0, '', False], 'kw': {}})
+        while len(descs) < n:
+            descs.append(gen_builder(rng, malformed=rng.random() < 0.25))
+        lines = [sexp.dumps(['spec', class_sexp(7, d['cls']), [hyper_sexp(v) for v in d['args']],
+                             [[pnames().index(k) if k in pnames() else 99, hyper_sexp(v)] for k, v in d['kw'].items()]]) for d in descs]
+        answers = self.model(lines)
+        for d, line in zip(descs, answers):
+            m = sexp.num(sexp.loads(line))
+            if not (isinstance(m, list) and m and m[0] == 'spec'):
+                raise fw.MachineryError(f'model driver rejected a builder: {m!r:.200}')
+            _, mnew, mcall, mrt, mafter = m
+            stateful = rng.random() < 0.5
+            real = R.probe_builder(d, stateful)
+            valid = real['new'] == 'ok'
+            self.case(repr(('builder', d['cls'], d['args'], sorted(d['kw'].items(), key=str), stateful)),
+                      f'builder: {d["cls"]} {"accepted" if valid else "refused"}'
+                      + (' none-over-default' if any(v is None for v in d['kw'].values()) else ''), nontrivial=valid)
+            if (mnew == 'ok') != valid:
+                self.diverge('Spec.new (Lean) vs flow.Spec.__new__', d, real['new'], mnew)
+                continue
+            if not valid:
+                continue
+
+            def py(c):
+                return 'typeError' if c == 'typeError' else ['ok', [[pnames()[n_], hyper_py(v)] for n_, v in c[1]]]
+
+            def typed(c):  # 0 == False in Python: compare with the types
+                return c if c == 'typeError' or c == ['typeError'] else [[k, type(v).__name__, v] for k, v in c[1]]
+
+            call = real['call'] if real['call'] != ['typeError'] else 'typeError'
+            if typed(py(mcall)) != typed(call):
+                self.diverge('Spec.call (Lean) vs the parameters of the actor the real builder makes', d, call, py(mcall))
+            for how, rtp in real['roundtrip'].items():
+                after = rtp['call'] if rtp['call'] != ['typeError'] else 'typeError'
+                if mrt == 'same':
+                    if rtp['same'] is not True:
+                        self.diverge(f'Spec.roundtrip (Lean: unchanged) vs {how}.loads({how}.dumps(builder))', d,
+                                     {'args': rtp.get('args'), 'kw': rtp.get('kw')}, 'same')
+                        self.suspects.append(d)
+                    if typed(after) != typed(py(mafter)):
+                        self.diverge(f'the actor made by the builder rebuilt by {how} vs Lean', d, after, py(mafter))
+                        self.suspects.append(d)
+                else:
+                    self.diverge('Spec.roundtrip (Lean) does not return the builder', d, rtp, mrt)
+
+    def _decorated(self, items, frac, **kw):
+        return [(n + '+', decorate(self.rng, s, **kw)) if self.rng.random() < frac else (n, s) for n, s in items]
+
+    @staticmethod
+    def _widened(items):
+        """indices of the cases with builders carrying hyper-parameters or with falsy payloads"""
+        R = rt()
+        out = []
+        for i, (_, s) in enumerate(items):
+            a = s.get('assets') or {}
+            if s.get('builders') or any(t >= R.FALSY_BASE for t in tags_of(s)) or any(isinstance(b, list) for b in a.get('prev') or ()):
+                out.append(i)
+        return out
+
+    def _plan(self, items, npool, nfresh=0, nwide=0):
+        """which cases also run under the `processes` scheduler: a random subset, plus `nwide` of the widened ones"""
+        rng = self.rng
+        plan = {i: 'pool' for i in rng.sample(range(len(items)), min(len(items), npool))}
+        wide = self._widened(items)
+        for i in rng.sample(wide, min(len(wide), nwide)):
+            plan[i] = 'pool'
+        for i in rng.sample(range(len(items)), min(len(items), nfresh)):
+            plan[i] = 'fresh'
+        return plan
+
     def correspondence(self):
         rng = self.rng
         try:
+            self._conventions()
+            self._builders(self.n(150, 3000))
             corpus = [(n, s) for n, s in CORPUS]
             self._batch(corpus, 'corpus', procs_plan={i: ('fresh' if i % 7 == 2 else 'pool') for i in range(len(corpus))})
             self._batch(list(MALFORMED), 'malformed')
             nseg, ndir = self.n(110, 900), self.n(150, 1500)
-            segs = self._bounded(self._segments(nseg))
-            plan = {i: 'pool' for i in rng.sample(range(len(segs)), min(len(segs), self.n(14, 120)))}
-            for i in rng.sample(range(len(segs)), min(len(segs), self.n(2, 12))):
+            segs = self._bounded(self._decorated(self._segments(nseg), 0.35))
+            self._batch(segs, 'compiled', procs_plan=self._plan(segs, self.n(10, 100), self.n(2, 12), self.n(8, 60)))
+            direct = self._bounded(self._decorated(
+                [(f'direct-{i}', gen_apply(rng, rng.choice([2, 3, 4, 4, 5, 5, 6, 7, 9]))) for i in range(ndir)], 0.4))
+            self._batch(direct, 'direct', procs_plan=self._plan(direct, self.n(10, 100), 0, self.n(10, 80)))
+            trains = self._bounded(self._decorated([(f'train-{i}', gen_train(rng)) for i in range(self.n(60, 600))], 0.5))
+            self._batch(trains, 'direct-train', procs_plan=self._plan(trains, self.n(8, 60), self.n(2, 8), self.n(10, 80)))
+            # configured actors and falsy payloads on small tables, every one also behind the process boundary
+            conf = []
+            for i in range(self.n(36, 900)):
+                base = gen_train(rng, stages=rng.choice([1, 1, 2])) if i % 2 else gen_apply(rng, rng.choice([2, 3, 3, 4, 5]), loaders=True)
+                conf.append((f'configured-{i}', decorate(rng, base, hyper=0.85, falsy=0.7)))
+            conf = self._bounded(conf)
+            plan = {i: 'pool' for i in range(len(conf))}
+            for i in rng.sample(range(len(conf)), min(len(conf), self.n(3, 20))):
                 plan[i] = 'fresh'
-            self._batch(segs, 'compiled', procs_plan=plan)
-            direct = self._bounded([(f'direct-{i}', gen_apply(rng, rng.choice([2, 3, 4, 4, 5, 5, 6, 7, 9]))) for i in range(ndir)])
-            plan = {i: 'pool' for i in rng.sample(range(len(direct)), min(len(direct), self.n(14, 120)))}
-            self._batch(direct, 'direct', procs_plan=plan)
-            trains = self._bounded([(f'train-{i}', gen_train(rng)) for i in range(self.n(60, 600))])
-            plan = {i: 'pool' for i in rng.sample(range(len(trains)), min(len(trains), self.n(12, 80)))}
-            for i in rng.sample(range(len(trains)), min(len(trains), self.n(2, 8))):
+            self._batch(conf, 'configured', procs_plan=plan)
+            # real flow segments handed to `Runner._exec` (compile + run) of every runner, also behind the process boundary
+            segs2 = []
+            for i in range(self.n(40, 800)):
+                c = segment_case(rng, gen_segment(rng))
+                if c is not None:
+                    segs2.append((f'exec-{i}', c))
+            segs2 = self._bounded(segs2)
+            plan = {i: 'pool' for i in range(len(segs2))}
+            for i in rng.sample(range(len(segs2)), min(len(segs2), self.n(3, 20))):
                 plan[i] = 'fresh'
-            self._batch(trains, 'direct-train', procs_plan=plan)
+            self._batch(segs2, 'exec', procs_plan=plan)
             small = []
             for n in range(2, self.n(4, 5) + 1):
                 small.extend((f'enum-{n}-{i}', s) for i, s in enumerate(enum_apply(n)))
@@ -1143,11 +1770,26 @@ class C02(fw.Check):
     # ---- failing-input search -----------------------------------------------------------------
     def search(self, reason):
         before = len(self.violations)
+        rng = self.rng
         try:
+            # configuration / payload side first (small tables, every one also behind the process boundary): the builders
+            # on which pickling and model disagreed, as a plain worker and as a trained + dumped + applied group
+            conf = []
+            for j, d in enumerate(self.suspects[:40]):
+                conf.append((f'suspect-{j}', table((0, F(0), []), (1, F(1), [0]), builders={'1': d})))
+                conf.append((f'suspect-train-{j}', table(
+                    (0, F(0), []), (2, F(2, 'train', 0), [0, 0]), (3, F(2, 'apply', 1), [2, 0]), (30, ['dumper'], [2]),
+                    (31, ['committer'], [30]), assets={'persistent': [2], 'prev': None}, builders={'2': d})))
+            for i in range(self.n(150, 600)):
+                base = gen_train(rng, stages=1) if i % 3 == 0 else gen_apply(rng, rng.choice([2, 2, 3, 3, 4]), loaders=True)
+                conf.append((f'search-configured-{i}', decorate(rng, base, hyper=0.8, falsy=0.8)))
+            conf = self._bounded(conf)
+            self._batch(conf, 'search', procs_plan={i: 'pool' for i in range(len(conf))})
             small = []
-            for n in range(2, 6):
-                small.extend((f'enum-{n}-{i}', s) for i, s in enumerate(enum_apply(n)))
-            self._batch(small, 'search', pyfunc_only=False)
+            if len(self.violations) == before:
+                for n in range(2, 6):
+                    small.extend((f'enum-{n}-{i}', s) for i, s in enumerate(enum_apply(n)))
+                self._batch(small, 'search', pyfunc_only=False)
             if len(self.violations) == before:
                 direct = self._bounded([(f'search-{i}', gen_apply(self.rng, self.rng.choice([3, 4, 5, 6, 7, 9]))) for i in range(self.n(400, 2000))])
                 self._batch(direct, 'search', procs_plan={i: 'pool' for i in range(0, len(direct), 10)})
